@@ -224,7 +224,7 @@ impl Check for C03 {
                 }
                 other => {
                     if budget_exceeded(other) {
-                        sh.inconclusive(format!("reference solver budget exceeded ({cfg_txt})"));
+                        backend_trouble(sh, other, &cfg_txt);
                         return;
                     }
                     let events = read_log(&run.log);
